@@ -15,6 +15,7 @@ func init() {
 		vec := fs.String("vectors", "", "TLC export")
 		seed := fs.Int64("seed", 1, "seed")
 		out := fs.String("out", "-", "report")
+		n := fs.Int("n", 50, "histories (keys)")
 		fs.Parse(args)
 		var rep interface{}
 		var err error
@@ -23,6 +24,8 @@ func init() {
 			rep, err = encrep.RunPolicy(*vec, *seed)
 		case "walk":
 			rep, err = encrep.RunWalk(*vec, *seed)
+		case "keys":
+			rep, err = encrep.RunKeys(*vec, *seed, *n)
 		case "taggable":
 			rep, err = encrep.RunTaggable(*vec, *seed)
 		default:
